@@ -221,6 +221,16 @@ HISTORY = {
     "C18_r12_decorator_announces_dbc_class_again": "missed at first (the recording hook wrapped the default one, which keeps the library's own memory "
     "fed); caught after a scenario that REPLACES the hook",
     "C19_r12_falsy_error_argument_taken_for_none": "missed at first (invalid error arguments were all truthy); caught after 0, '', False, () and {}",
+    "C01_r13_dead_marks_honoured_while_another_check_runs": "missed at first by C01 (C10 and C11 caught its twins); caught after several calls of one "
+    "function are made inside a method body of a class with invariants and inside a condition of another function",
+    "C02_r13_has_member_looks_two_levels_up_only": "missed at first (gaps were one class long); caught after chains of five with two or three "
+    "classes in a row that do not override the member",
+    "C04_r13_module_level_function_taken_for_a_member_of_another_class": "missed at first (every override was written in its class body); caught after "
+    "overrides assigned in the class body (module-level function, factory-made function, lambda, property(getter))",
+    "C10_r13_post_phase_writes_the_set_read_at_the_start": "missed at first by C10 (C12 caught its twin in round 9); caught after suspended calls "
+    "finish, driven by hand, while a condition that re-enters its function is evaluated",
+    "C14_r13_deferring_new_looks_for_own_init_only": "missed at first (the classes below a class without constructor defined their constructors "
+    "themselves); caught after a class which only inherits the constructor a sub-class added",
 }
 
 
